@@ -132,6 +132,11 @@ func (d *decoder) varint() uint64 {
 		return 0
 	}
 	v, n := binary.Uvarint(d.buf)
+	if n <= 0 {
+		// n == 0: buffer too small, n < 0: value overflows 64 bits.
+		d.err = io.ErrShortBuffer
+		return 0
+	}
 	d.buf = d.buf[n:]
 	return v
 }
